@@ -61,6 +61,8 @@ def check_groundwater_table(
         zMid = prof.zMid
 
         # Check if water table is within modelled soil profile
+        # (a negative depth means no water table, as in the initial conditions)
+        NewCond_WTinSoil = False
         if NewCond_zGW >= 0:
             if len(zMid[zMid >= NewCond_zGW]) == 0:
                 NewCond_WTinSoil = False
